@@ -227,7 +227,6 @@ func (i *insertOnUpdateExecutor) buildBeforeImageSQLParameters(insertStmt *ast.I
 			} else {
 				parameterMap[columnName] = append(parameterMap[col], driver.NamedValue{
 					Ordinal: i + 1,
-					Name:    columnName,
 					Value:   val,
 				})
 			}
@@ -299,7 +298,6 @@ func (i *insertOnUpdateExecutor) buildAfterImageSQL(beforeImage *types.RecordIma
 			if !i.beforeImageSqlPrimaryKeys[name] {
 				wherePrimaryList = append(wherePrimaryList, name+" = ? ")
 				primaryValues = append(primaryValues, driver.NamedValue{
-					Name:  name,
 					Value: value[j],
 				})
 			}
